@@ -203,7 +203,7 @@ template< typename T, typename TF>
 
    operator ++();
 
-   return *this;
+   return result;
 } // RangeStringIterator< T, TF>::operator ++
 
 
